@@ -263,6 +263,82 @@ fn key_nl_strategy(tier: Tier) -> BoxedStrategy<MultiCase> {
         .boxed()
 }
 
+// ------------------------------------------------------------------------------------------
+// bottom alignment and height overflow together
+
+#[derive(Debug, Clone, serde::Serialize, serde::Deserialize)]
+pub struct BottomOverCase {
+    rows: u8,
+    cols: u8,
+    bars: u8,
+    /// (bar selector, message length in columns, then a tick of this bar selector)
+    steps: Vec<(u8, u16, u8)>,
+}
+
+/// Redraws "remove all of their rows and nothing else", also when a bottom-aligned region is cut at the
+/// terminal height in one frame and fits again in the next: the line printed before the bars existed is
+/// the first row ever written and must stay what it is.
+fn run_bottom_over(c: &BottomOverCase) -> CaseResult {
+    use indicatif::{MultiProgress, MultiProgressAlignment, ProgressBar, ProgressDrawTarget, ProgressStyle};
+    let _clk = clock::Armed::new();
+    let (rows, cols) = (c.rows.clamp(3, 9) as usize, c.cols.clamp(6, 24) as usize);
+    let vt = crate::vterm::VTerm::new(rows, cols);
+    let mp = MultiProgress::with_draw_target(ProgressDrawTarget::term_like(vt.boxed()));
+    let r = catch(|| -> Result<(bool, bool), Fail> {
+        let _ = mp.println("~L~");
+        mp.set_alignment(MultiProgressAlignment::Bottom);
+        // (the log row and the bars fit on the screen as long as no message wraps)
+        let n = (c.bars as usize % 3 + 1).min(rows - 2);
+        let bars: Vec<ProgressBar> = (0..n)
+            .map(|i| {
+                let pb = mp.add(ProgressBar::with_draw_target(Some(9), ProgressDrawTarget::hidden()));
+                pb.set_style(ProgressStyle::with_template(&format!("B{i}:{{msg}}")).unwrap());
+                pb
+            })
+            .collect();
+        let (mut cut, mut fits_again) = (false, false);
+        let mut lens = vec![0usize; n];
+        let check = |what: &str| -> Result<(), Fail> {
+            let all = vt.rows();
+            let hits = all.iter().filter(|r| r.contains("~L~")).count();
+            ensure!(
+                all.first().map_or(false, |r| r.trim_end() == "~L~") && hits == 1,
+                "bottom_overflow_erases_above",
+                "{what} ({rows}x{cols} terminal, bottom alignment, case {c:?}): the line printed before the bars is no longer the intact first row: rows {all:?}"
+            );
+            Ok(())
+        };
+        for b in &bars {
+            clock::advance(Duration::from_millis(2));
+            b.tick();
+        }
+        check("after the first frames")?;
+        for (k, (sel, len, tick)) in c.steps.iter().enumerate() {
+            clock::advance(Duration::from_millis(2));
+            let i = *sel as usize % n;
+            lens[i] = *len as usize % (rows * cols + 2 * cols);
+            bars[i].set_message("m".repeat(lens[i]));
+            check(&format!("step #{k}: set_message of {} columns on B{i}", lens[i]))?;
+            clock::advance(Duration::from_millis(2));
+            bars[*tick as usize % n].tick();
+            check(&format!("step #{k}: tick after it"))?;
+            let total: usize = lens.iter().map(|l| (l + 3 + cols - 1) / cols).sum();
+            if total > rows {
+                cut = true;
+            } else if cut {
+                fits_again = true;
+            }
+        }
+        Ok((cut, fits_again))
+    });
+    let (cut, fits_again) = r.map_err(|p| Fail::new("panic", format!("{c:?} panicked: {p}")))??;
+    let mut v = Verdict::default();
+    v.nontrivial = cut;
+    v.label_if(cut, "bottom_aligned_frame_cut_at_the_terminal_height");
+    v.label_if(fits_again, "fits_again_after_the_cut");
+    Ok(v)
+}
+
 pub fn property() -> Property {
     let w = default_workers();
     Property {
@@ -303,6 +379,21 @@ pub fn property() -> Property {
             run: run_key_nl,
             signature: crate::props::c02::signature,
             essential: &["frame_with_a_key_written_line_break_redrawn", "line_wraps", "first_line_of_blanks_that_fills_whole_rows"],
+            workers: w,
+            decode: None,
+        }),
+        Box::new(Gen::<BottomOverCase> {
+            name: "bottom_overflow",
+            rule: "one line is printed, then bottom alignment is switched on and 1-3 single-line bars are added to a terminal of 3-9 rows x 6-24 columns; 1-12 steps of set_message (0 .. rows*cols + 2*cols columns, so that the frame is cut at the terminal height in some frames and fits again in others) and a tick; after every call the printed line is still the intact first row ever written and exists once (redraws remove their own rows and nothing else); non-trivial = a frame was cut at the terminal height",
+            strategy: |_| {
+                (3u8..=9, 6u8..=24, 0u8..3, proptest::collection::vec((any::<u8>(), prop_oneof![2 => 0u16..30, 2 => 30u16..300, 1 => Just(0u16)], any::<u8>()), 1..12))
+                    .prop_map(|(rows, cols, bars, steps)| BottomOverCase { rows, cols, bars, steps })
+                    .boxed()
+            },
+            cases: |t| t.pick(3_000, 150_000),
+            run: run_bottom_over,
+            signature: no_signature,
+            essential: &["bottom_aligned_frame_cut_at_the_terminal_height", "fits_again_after_the_cut"],
             workers: w,
             decode: None,
         })],
